@@ -47,6 +47,7 @@ class Prop:
         if off:
             sc["sub2_t"] = 205 + off
             sc["horizon"] = 3500
+        multi.gen_feedback(rng, sc, sc.get("outer") or sc["inners"][0], p=0.15)  # a consumer that pushes a follow-up element into the (hot) outer / first source
         return sc
 
     def build(self, w, sc):
